@@ -150,6 +150,8 @@ type Res struct {
 	// Silent is set when the state was mutated without an event and no reset
 	// has covered it yet.
 	Silent bool
+	// Q is set for query resources.
+	Q *QueryState
 }
 
 // World is the ground truth: every resource and its announced state.
